@@ -7,7 +7,7 @@
    spec_run = the abstract counter under a history, count_from).
    Only inter-call stopping points are expressible (as the property states); w >= 0. *)
 From Coq Require Import ZArith List.
-From SP Require Import Base.Result Base.Bytes Model.SeqCount Spec.SeqCountSpec Proofs.SeqCountProofs.
+From SP Require Import Base.Result Base.Bytes Model.SeqCount Spec.SeqCountSpec Proofs.SeqCountProofs Proofs.SeqCountAscii.
 Import ListNotations.
 Open Scope Z_scope.
 
@@ -34,6 +34,28 @@ Theorem C19_file_next : forall w fs, 0 <= w ->
   end.
 Proof. exact file_next_spec. Qed.
 Print Assumptions C19_file_next.
+
+(* the rejection clause with the alphabet explicit: EVERY file content over the ASCII alphabet
+   (ascii_text c := Forall (fun x => 0 <= x <= 127) c) either holds a count or is refused with
+   ValueError by get_and_increment and by current, the file left exactly as it was.
+   Content outside ASCII (where Python's str.isdigit / int / rstrip and the text decoding of the
+   file know more digits, more blanks and undecodable octets) is OUTSIDE the model: it is explored
+   on the implementation only (harness/props/c19.py, EXPLORED_ONLY). *)
+Theorem C19_file_content_dichotomy : forall w c, ascii_text c -> 0 <= w ->
+  (exists n, holds_count w c n) \/
+  (file_next w (Some c) = (Err EValue, Some c) /\ file_current w (Some c) = Err EValue).
+Proof. exact file_content_dichotomy. Qed.
+Print Assumptions C19_file_content_dichotomy.
+Theorem C19_file_content_exclusive : forall w c n, 0 <= w -> holds_count w c n ->
+  fst (file_next w (Some c)) = Ok n /\ file_current w (Some c) = Ok n.
+Proof. exact file_content_exclusive. Qed.
+Print Assumptions C19_file_content_exclusive.
+Example C19_dichotomy_inhabited :
+  ascii_text [52; 50; 32; 13; 10; 120] /\ holds_count 14 [52; 50; 32; 13; 10; 120] 42 /\
+  ascii_text [52; 50; 120; 10] /\ file_next 14 (Some [52; 50; 120; 10]) = (Err EValue, Some [52; 50; 120; 10]) /\
+  ascii_text [] /\ file_next 14 (Some []) = (Err EValue, Some []) /\
+  ascii_text [49; 54; 51; 56; 52; 10] /\ file_next 14 (Some [49; 54; 51; 56; 52; 10]) = (Err EValue, Some [49; 54; 51; 56; 52; 10]).
+Proof. exact dichotomy_examples. Qed.
 
 (* what the provider reads as "count n" is exactly the independent notion *)
 Theorem C19_file_valid_iff : forall w c n, file_valid w c n <-> holds_count w c n.
